@@ -73,8 +73,13 @@ type DecV struct {
 	Nil bool
 }
 
-// TimeV: time.Time as nanoseconds since Unix epoch (Int sort). Zero time.Time is year 1.
-type TimeV struct{ T *Term }
+// TimeV: time.Time as signed 64-bit nanoseconds since the Unix epoch (valid within +-292 years;
+// harnesses keep times inside that range). Z marks the zero time.Time (year 1), which lies
+// outside that range and is treated as "before everything".
+type TimeV struct {
+	T *Term
+	Z bool
+}
 
 // BlobV: result of codec marshal: a frozen typed value standing for its bytes.
 type BlobV struct {
@@ -143,7 +148,7 @@ func (ex *Exec) specialZero(t types.Type) (Val, bool) {
 	case tkBig:
 		return BigV{T: ex.tf.Inti(0)}, true
 	case tkTime:
-		return TimeV{T: ex.tf.IntConst(zeroTimeNanos)}, true
+		return TimeV{T: ex.tf.BVu(0, 64), Z: true}, true
 	case tkContext:
 		return &CtxV{}, true
 	}
@@ -567,6 +572,9 @@ func (ex *Exec) valEq(a, b Val) *Term {
 		y, ok := b.(TimeV)
 		if !ok {
 			return ex.tf.F
+		}
+		if x.Z || y.Z {
+			return ex.tf.Bool(x.Z && y.Z)
 		}
 		return ex.tf.Eq(x.T, y.T)
 	case *ErrV:
